@@ -6,6 +6,12 @@ import json, os, subprocess, sys
 VERIF = os.path.dirname(os.path.dirname(os.path.abspath(__file__)))
 
 CLAIMED = {
+    "C13": dict(
+        text="Coq theorems about a model of keys, blocks and tables: internal-key order is a strict total preorder; shortest separator/successor lie between their arguments and their assertions never fire; every sorted entry list cut at arbitrary block boundaries builds a well-formed table; block encode/decode round trip for every restart interval; BlockIter and the two-level iterator refine a sorted-list cursor under arbitrary cursor operations; Table::get answers value/deletion/not-in-this-file exactly as the newest entry at or below the bound dictates. Tied to the code by differential execution (byte-exact for keys and blocks, entry level for tables built by the real TableBuilder).",
+        note="Trusted: Coq kernel, extraction, glue. Modelled rather than verified: Snappy framing, block trailer, footer, metaindex, block cache (exercised by the correspondence only).",
+        design="6 / C13",
+        technique="machine-checked proof in Coq (order theory, codec round trips, cursor simulation) + checked model-code correspondence",
+    ),
     "C14": dict(
         text="Coq theorems: a Bloom filter created from a key set answers may-match for every key of the set (any hash function, any probe count, any bits-per-key) and the filter block consulted with a data block start offset answers may-match for every key of that block (any block layout); byte-exact model tied to filter_policy.rs / filter_block*.rs by differential execution.",
         note="Trusted: Coq kernel, extraction, glue; theorem hypothesis keys*bits_per_key < 2^32 (the as-u32 truncation).",
